@@ -5,6 +5,9 @@ import Poulpy.Model.Core.Expand
 import Poulpy.Lemmas.ExpandIdx
 import Poulpy.Lemmas.ExpandPhase
 import Poulpy.Lemmas.NegHal
+import Poulpy.Lemmas.EpBridge
+import Poulpy.Model.Core.Mul
+import Poulpy.Props.C03
 
 /-!
 # C04 — external products and CMux multiply by the EpGGSW plaintext within noise
@@ -26,9 +29,9 @@ Layers
   `ggsw_encrypt_sk` produces: row `r`, column `c` carries `m2·σ_c` at limb `(r+1)·dsize − 1`) the
   first sum is the gadget recomposition of the digits, i.e. the phase of the decomposed GLWE minus
   the dropped limbs.
-* repaired defect (`epInternal_stale_witness_partial`): until poulpy d3c2e96 the result of
-  `glwe_external_product_internal` depended on the prior content of `res_dft` for `dsize ≥ 3`
-  (`Cmux` does not zero it); the former counterexample is now the regression instance.
+* determinacy (`epInternal_determined`, every `dsize`) and the `dsize = 1` bridge (`ep_executed_phase_dsize1`,
+  `ep_executed_identity_dsize1`) are about the executed `Core.epInternal`; until poulpy d3c2e96 determinacy was false
+  for `dsize ≥ 3` (`Cmux`/`Cswap` do not zero `res_dft`), the former counterexample is the regression instance.
 -/
 
 namespace C04
@@ -125,6 +128,46 @@ example : polyAdd (sumR 2 (fun q => Hal.negMul ([[3, -1]].getD q []) ([[1, 5]].g
     (fun q hq => by have h0 : q = 0 := (by omega); subst h0; rfl)
     (fun q hq => by have h0 : q = 0 := (by omega); subst h0; decide) (by decide)
 
+/-- **`cswap_swaps`.**  `Cswap` computes `res_a ← (res_b − res_a) ⊡ ggsw + res_a` and
+`res_b ← res_b − (res_b − res_a) ⊡ ggsw`.  Let `D = Σ_q d_q ⋆ w_q` be the gadget recomposition of the digits of
+`res_b − res_a`, assumed to be `B − A` (`A`, `B`: the phases of the two inputs at this limb, less the dropped limbs).
+If the GGSW rows have phase `m2 ⋆ w_q + e_q`, then for the bit `m2 = 1` the two output phases are the input phases
+**exchanged** — `(B + N, A − N)` — and for `m2 = 0` they are **unchanged** — `(A + N, B − N)` — with the same explicit
+error sum `N = Σ_q d_q ⋆ e_q` entering with opposite signs, for every pair of inputs and every shape.  This is the
+`CswapContract` that the blind-retrieval theorems of C15 (`Lemmas/BlindSel.lean`) assume, at phase level. -/
+theorem cswap_swaps (n k : Nat) (bit : Bool) (d P w e : Nat → Poly) (R : Nat) (A B : Poly)
+    (hA : A.length = n) (hB : B.length = n)
+    (hw : ∀ q, q < R → (w q).length = n) (he : ∀ q, q < R → (e q).length = n)
+    (hP : ∀ q, q < R → P q = polyAdd (Hal.negMul (if bit then 1 :: zeroP k else zeroP (k + 1)) (w q)) (e q))
+    (hD : sumR n (fun q => Hal.negMul (d q) (w q)) R = polySub B A) :
+    polyAdd (sumR n (fun q => Hal.negMul (d q) (P q)) R) A
+        = polyAdd (if bit then B else A) (sumR n (fun q => Hal.negMul (d q) (e q)) R)
+      ∧ polySub B (sumR n (fun q => Hal.negMul (d q) (P q)) R)
+        = polySub (if bit then A else B) (sumR n (fun q => Hal.negMul (d q) (e q)) R) := by
+  refine ⟨cmux_selects n k bit d P w e R B A hB hA hw he hP hD, ?_⟩
+  rw [ep_identity n _ d P w e R hw he hP, hD]
+  have hlen : (polySub B A).length = n := by simp [polySub, hA, hB]
+  have hN : (sumR n (fun q => Hal.negMul (d q) (e q)) R).length = n :=
+    sumR_length n _ R (fun q hq => by rw [Hal.negMul_length, he q hq])
+  cases bit with
+  | true =>
+    simp only [if_true]
+    rw [negMul_one]
+    exact sub_add_sub_regroup A B _ (by rw [hA, hB]) (by rw [hN, hB])
+  | false =>
+    simp only [Bool.false_eq_true, if_false]
+    rw [negMul_zeroP_left, hlen, ep_polyAdd_zero_left n _ hN]
+
+example : polyAdd (sumR 2 (fun q => Hal.negMul ([[3, -1]].getD q []) ([[1, 5]].getD q [])) 1) [8, 21]
+      = polyAdd [11, 20] (sumR 2 (fun q => Hal.negMul ([[3, -1]].getD q []) ([[0, 5]].getD q [])) 1)
+    ∧ polySub [11, 20] (sumR 2 (fun q => Hal.negMul ([[3, -1]].getD q []) ([[1, 5]].getD q [])) 1)
+      = polySub [8, 21] (sumR 2 (fun q => Hal.negMul ([[3, -1]].getD q []) ([[0, 5]].getD q [])) 1) :=
+  cswap_swaps 2 1 true (fun q => [[3, -1]].getD q []) (fun q => [[1, 5]].getD q []) (fun q => [[1, 0]].getD q [])
+    (fun q => [[0, 5]].getD q []) 1 [8, 21] [11, 20] rfl rfl
+    (fun q hq => by have h0 : q = 0 := (by omega); subst h0; rfl)
+    (fun q hq => by have h0 : q = 0 := (by omega); subst h0; rfl)
+    (fun q hq => by have h0 : q = 0 := (by omega); subst h0; decide) (by decide)
+
 /-! ## Row expansion (GGLWE → GGSW), third clause of the property -/
 
 /-- **Layer B — row expansion.**  Row `row` of the GGLWE is the GLWE `(body, a_1 … a_r)` with
@@ -191,31 +234,133 @@ theorem secretTensorIdx_surjective_partial :
 
 example : ∃ i, i < 3 ∧ ∃ j, j < 3 ∧ i ≤ j ∧ secretTensorIdx 3 i j = 5 := by decide
 
-/-
-FULL STATEMENT (not proved in general): for every EpGGSW `g` (any `dsize`), every input `a` and every
-prior content `res0 res0'` / `tmp0 tmp0'` of the two scratch DFT buffers,
-`epInternal a g res0 tmp0 = epInternal a g res0' tmp0'`  (the result is determined by its inputs).
-History: this was FALSE of the code for `dsize ≥ 3` until poulpy d3c2e96 (pass `di = 0` shrank
-`res_dft` to `size − (dsize − 2)` limbs and the later passes added into the never-written tail;
-`Cmux`/`Cswap` do not zero `res_dft`).  This slice proved the negation on the witness below and
-reproduced it on all four back ends; the code now zeroes the skipped limbs (`zeroTail`), the model
-follows, and the former witness is the regression example.  The general statement needs the
-`Buf.setFlat`/`Buf.act` plumbing lemmas (`_partial`: instance only).
--/
+/-! ## The executed external product (`Core.epInternal`): determinacy and the `dsize = 1` bridge -/
 
-/-- the former witness: `n = 1`, rank 1, `dsize = 3`, EpGGSW of 4 limbs -/
+/-- **Determinacy of `glwe_external_product_internal`, every digit size.**  The big accumulator returned by the
+executed model does not depend on the previous contents of the two scratch DFT buffers (`res_dft`, which the CMux
+forms and `Cswap` do not zero, and `res_dft_tmp`, which nobody zeroes): no stale scratch data can reach an external
+product, a CMux or a Cswap.  (False of the code for `dsize ≥ 3` until poulpy d3c2e96 — this slice proved the negation
+on a witness and reproduced it on the four back ends; the former witness is the example below.) -/
+theorem epInternal_determined (a : List Col) (g : EpGGSW) (res0 res0' tmp0 tmp0' : List Col) (hd : 1 ≤ g.dsize)
+    (h0 : shapeOk g.n (g.rank + 1) g.size res0 = true) (h0' : shapeOk g.n (g.rank + 1) g.size res0' = true)
+    (ht : shapeOk g.n (g.rank + 1) g.size tmp0 = true) (ht' : shapeOk g.n (g.rank + 1) g.size tmp0' = true) :
+    epInternal a g res0 tmp0 = epInternal a g res0' tmp0' :=
+  Core.epInternal_determined a g res0 res0' tmp0 tmp0' hd h0 h0' ht ht'
+
+/-- the former witness of the defect (`n = 1`, rank 1, `dsize = 3`, GGSW of 4 limbs) -/
 def staleG : EpGGSW :=
   { base2k := 4, n := 1, rank := 1, dsize := 3, dnum := 1, size := 4,
     cells := [[[[1], [0], [0], [0]], [[0], [0], [0], [0]]], [[[0], [0], [0], [0]], [[1], [0], [0], [0]]]] }
 
-/-- on the former witness the result no longer depends on the stale content of `res_dft` … -/
-theorem epInternal_stale_witness_partial :
-    epInternal [[[1], [2], [3]], [[0], [1], [0]]] staleG [[[0], [0], [0], [7]], [[0], [0], [0], [0]]] (zeroCols 1 2 4)
-      = epInternal [[[1], [2], [3]], [[0], [1], [0]]] staleG (zeroCols 1 2 4) (zeroCols 1 2 4) := by
-  decide
+example : epInternal [[[1], [2], [3]], [[0], [1], [0]]] staleG [[[0], [0], [0], [7]], [[0], [0], [0], [0]]] (zeroCols 1 2 4)
+    = epInternal [[[1], [2], [3]], [[0], [1], [0]]] staleG (zeroCols 1 2 4) (zeroCols 1 2 4) :=
+  epInternal_determined _ staleG _ _ _ _ (by decide) (by decide) (by decide) (by decide) (by decide)
 
-/-- … and is the expected product -/
 example : epInternal [[[1], [2], [3]], [[0], [1], [0]]] staleG (zeroCols 1 2 4) (zeroCols 1 2 4)
     = [[[3], [0], [0], [0]], [[0], [0], [0], [0]]] := by decide
+
+/-- **Bridge, `dsize = 1`, layer A on the executed definition.**  Limb `l` of the phase of what `Core.epInternal`
+returns (through `Buf.setFlat` / `Buf.act` and the `vec_znx_dft_apply` column loop) is the digit-weighted sum of the
+phases of limb `l` of the GGSW rows, the digits being the limbs of the input in storage order. -/
+theorem ep_executed_phase_dsize1 (sk : List Poly) (a : List Col) (g : EpGGSW) (res0 tmp0 : List Col) (l : Nat)
+    (h1 : g.dsize = 1) (h0 : shapeOk g.n (g.rank + 1) g.size res0 = true)
+    (ha : shapeOk g.n (g.rank + 1) (a.getD 0 []).length a = true) (hl : l < g.size)
+    (hM : ∀ j q, (g.toPMat.entry j q).length = g.n) :
+    Ks.phaseRow sk ((epInternal a g res0 tmp0).map (fun col => limbOr0 g.n col l)) =
+      sumR g.n (fun j => Hal.negMul ((mkBuf g.n (g.rank + 1) (a.getD 0 []).length a).flat.getD j (zeroP g.n))
+          (Ks.phaseRow sk (Ks.rowLimb g.toPMat j l)))
+        (min ((g.rank + 1) * g.dnum) ((a.getD 0 []).length * (g.rank + 1))) :=
+  epInternal_phase_dsize1 sk a g res0 tmp0 l h1 h0 ha hl hM
+
+/-- **External-product identity on the executed model (`dsize = 1`, in full).**  If limb `l` of the phase of GGSW
+row `j` is `m2 ⋆ w_j + e_j`, limb `l` of the phase of the executed product is `m2 ⋆ (Σ_j d_j ⋆ w_j) + Σ_j d_j ⋆ e_j`,
+`d_j` the input limbs: `ep_identity` is a statement about `Core.epInternal`. -/
+theorem ep_executed_identity_dsize1 (sk : List Poly) (a : List Col) (g : EpGGSW) (res0 tmp0 : List Col) (l : Nat)
+    (m2 : Poly) (w e : Nat → Poly)
+    (h1 : g.dsize = 1) (h0 : shapeOk g.n (g.rank + 1) g.size res0 = true)
+    (ha : shapeOk g.n (g.rank + 1) (a.getD 0 []).length a = true) (hl : l < g.size)
+    (hM : ∀ j q, (g.toPMat.entry j q).length = g.n)
+    (hw : ∀ j, j < min ((g.rank + 1) * g.dnum) ((a.getD 0 []).length * (g.rank + 1)) → (w j).length = g.n)
+    (he : ∀ j, j < min ((g.rank + 1) * g.dnum) ((a.getD 0 []).length * (g.rank + 1)) → (e j).length = g.n)
+    (hP : ∀ j, j < min ((g.rank + 1) * g.dnum) ((a.getD 0 []).length * (g.rank + 1)) →
+      Ks.phaseRow sk (Ks.rowLimb g.toPMat j l) = polyAdd (Hal.negMul m2 (w j)) (e j)) :
+    Ks.phaseRow sk ((epInternal a g res0 tmp0).map (fun col => limbOr0 g.n col l)) =
+      polyAdd
+        (Hal.negMul m2 (sumR g.n (fun j =>
+          Hal.negMul ((mkBuf g.n (g.rank + 1) (a.getD 0 []).length a).flat.getD j (zeroP g.n)) (w j))
+          (min ((g.rank + 1) * g.dnum) ((a.getD 0 []).length * (g.rank + 1)))))
+        (sumR g.n (fun j =>
+          Hal.negMul ((mkBuf g.n (g.rank + 1) (a.getD 0 []).length a).flat.getD j (zeroP g.n)) (e j))
+          (min ((g.rank + 1) * g.dnum) ((a.getD 0 []).length * (g.rank + 1)))) := by
+  rw [ep_executed_phase_dsize1 sk a g res0 tmp0 l h1 h0 ha hl hM]
+  exact ep_identity g.n m2 _ _ w e _ hw he hP
+
+/-- the gadget product executed by row expansion and by relinearisation **is** C03's `gglwe_product_dft`
+(`Ks.gglweProductDft`): `C03.keyswitch_phase_dsize1`, `C03.keyswitch_phase_dsize_gt1` (limb regrouping = digit
+decomposition, `C03.limb_used_iff`, `C03.used_value_is_input_value`) and `C03.gadget_identity` are statements about it. -/
+theorem gglweProductDft_is_ks (a : List Col) (g : GGLWE) (resSize : Nat) (res0 : List Col) :
+    Core.gglweProductDft a g resSize res0 =
+      (List.range g.colsOut).map
+        (Ks.gglweProductDft (mkBuf g.n g.colsOut resSize res0) (mkBuf g.n g.colsIn (a.getD 0 []).length a) g.toKey).act := rfl
+
+example : Core.gglweProductDft [[[1]]] { base2k := 4, n := 1, colsIn := 1, colsOut := 1, dsize := 1, dnum := 1, size := 1, cells := [[[[3]]]] }
+    1 [[[9]]] = [[[3]]] := by decide
+
+/-- … and its result does not depend on the previous content of `res_dft` (row expansion zeroes it, relinearisation
+does not): `C03.product_determined` on the executed definition, every digit size. -/
+theorem gglweProductDft_determined (a : List Col) (g : GGLWE) (res0 res0' : List Col) (hd : 1 ≤ g.dsize)
+    (h0 : shapeOk g.n g.colsOut g.size res0 = true) (h0' : shapeOk g.n g.colsOut g.size res0' = true) :
+    Core.gglweProductDft a g g.size res0 = Core.gglweProductDft a g g.size res0' := by
+  rw [gglweProductDft_is_ks, gglweProductDft_is_ks]
+  have s0 := (mkBuf_shape g.n g.colsOut g.size res0 h0).1
+  have s0' := (mkBuf_shape g.n g.colsOut g.size res0' h0').1
+  apply List.map_congr_left
+  intro c hc
+  exact C03.product_determined _ _ (mkBuf g.n g.colsIn (a.getD 0 []).length a) g.toKey hd s0.1 s0'.1 rfl rfl rfl rfl rfl rfl rfl rfl c (List.mem_range.mp hc)
+
+example : Core.gglweProductDft [[[1]]] { base2k := 4, n := 1, colsIn := 1, colsOut := 1, dsize := 1, dnum := 1, size := 1, cells := [[[[3]]]] }
+    1 [[[9]]] = Core.gglweProductDft [[[1]]] { base2k := 4, n := 1, colsIn := 1, colsOut := 1, dsize := 1, dnum := 1, size := 1, cells := [[[[3]]]] }
+    1 [[[0]]] := by decide
+
+/-- **Bridge for row expansion (key `dsize = 1`)**: the product `Core.expandRowCols` executes for column `col`
+(`Core.gglweProductDft aDft (t.at (col−1)) …`) has, at limb `l`, the phase `Σ_j a_j ⋆ phase(key row j)_l`; with the key rows of
+phase `s_col ⋆ s_j + e_j` this is the first summand of `row_expansion_identity` (for `dsize ≥ 2`: `C03.keyswitch_phase_dsize_gt1`
+through `gglweProductDft_is_ks`). -/
+theorem expand_product_phase_dsize1 (sk : List Poly) (a : List Col) (g : GGLWE) (res0 : List Col) (l : Nat)
+    (h1 : g.dsize = 1) (h0 : shapeOk g.n g.colsOut g.size res0 = true) (hc : 0 < g.colsOut) (hl : l < g.size)
+    (hM : ∀ j q, (g.toPMat.entry j q).length = g.n) :
+    Ks.phaseRow sk ((Core.gglweProductDft a g g.size res0).map (fun col => limbOr0 g.n col l)) =
+      sumPolys g.n ((List.range (min (g.colsIn * g.dnum) (mkBuf g.n g.colsIn (a.getD 0 []).length a).flat.length)).map (fun j =>
+        Hal.negMul ((mkBuf g.n g.colsIn (a.getD 0 []).length a).flat.getD j (zeroP g.n)) (Ks.phaseRow sk (Ks.rowLimb g.toPMat j l)))) := by
+  have s0 := (mkBuf_shape g.n g.colsOut g.size res0 h0).1
+  have h := C03.keyswitch_phase_dsize1 sk (mkBuf g.n g.colsOut g.size res0) (mkBuf g.n g.colsIn (a.getD 0 []).length a) g.toKey l
+    h1 s0.1 rfl hc hl hl hM
+  have e : Ks.gglweProductDft (mkBuf g.n g.colsOut g.size res0) (mkBuf g.n g.colsIn (a.getD 0 []).length a) g.toKey
+      = Hal.opVmp (mkBuf g.n g.colsOut g.size res0) (mkBuf g.n g.colsIn (a.getD 0 []).length a) g.toPMat 0 := by
+    unfold Ks.gglweProductDft
+    have h1' : g.toKey.dsize = 1 := h1
+    simp only [h1', if_true]
+    rfl
+  have v := Ks.opVmp_spec (mkBuf g.n g.colsOut g.size res0) (mkBuf g.n g.colsIn (a.getD 0 []).length a) g.toPMat 0 s0.1
+  have hb : Ks.bufRow (Ks.gglweProductDft (mkBuf g.n g.colsOut g.size res0) (mkBuf g.n g.colsIn (a.getD 0 []).length a) g.toKey) l
+      = (Core.gglweProductDft a g g.size res0).map (fun col => limbOr0 g.n col l) := by
+    unfold Core.gglweProductDft Ks.bufRow
+    simp only [List.map_map]
+    rw [e, v.2.1, v.2.2.2.1]
+    rfl
+  rw [← hb]
+  exact h
+
+example : Ks.phaseRow [] ((Core.gglweProductDft [[[2]]]
+      { base2k := 4, n := 1, colsIn := 1, colsOut := 1, dsize := 1, dnum := 1, size := 1, cells := [[[[3]]]] } 1 [[[9]]]).map
+        (fun col => limbOr0 1 col 0)) = [6] := by decide
+
+/-
+NOT PROVED: the phase statement of `Core.epInternal` for `dsize > 1` (its loop differs from `gglwe_product_dft` only by
+the missing `.min(dnum)` on the digit buffer, which `vmp` truncates anyway — `C07.vmp_row_truncation`; the accumulation
+lemma `C03.product_accum_dsize_gt1` is proved for the clamped loop and is not transported); for `dsize > 1` the
+layer-B identity (`ep_identity` per pass via `vmp_phase`, C03's regrouping lemmas) is therefore about `Hal.vmpFlat`, not
+about `epInternal`.  Determinacy (`epInternal_determined`) holds for every `dsize`.
+-/
 
 end C04
